@@ -306,6 +306,9 @@ func genScanOptions(rt *rapid.T, cfg *Config) {
 				cfg.PathsToExtract = keep
 			}
 		}
+	} else if rapid.IntRange(0, 5).Draw(rt, "cutoff-whole-root") == 5 {
+		// the sub-directory cut-off without requested paths: only the files directly in the root
+		cfg.IgnoreSubDirs = true
 	}
 }
 
